@@ -256,15 +256,9 @@ func (u *Unit) callContract(st *State, fr *Frame, fn *ssa.Function, c *FuncContr
 	if !u.applyPre(st, c, envPre, name, pos) {
 		return false
 	}
-	// recursion variant
-	if c.Decreases != nil && u.contract.Decreases != nil && u.sameRecursionGroup(fn) {
-		cur, err1 := u.evalInt(u.topEntry, u.contractEnvFn(u.fn, u.topParams, st.frames[0].bind, nil, u.topEntry), u.contract.Decreases.Expr)
-		nxt, err2 := u.evalInt(st, envPre, c.Decreases.Expr)
-		if err1 == nil && err2 == nil {
-			u.oblige(st, "dec@"+name, "", fmt.Sprintf("(and (< %s %s) (<= 0 %s))", nxt, cur, cur), pos, "recursion variant decreases", nil, c.Decreases.Where)
-		} else {
-			u.fail(fmt.Sprintf("%s: decreases: %v %v", c.Where, err1, err2))
-		}
+	// recursion variant (lexicographic)
+	if c.Decreases != nil && u.contract.Decreases != nil {
+		u.decreaseObligation(st, "dec@"+name, c.Decreases, envPre, st, pos)
 	}
 	u.applyFrame(st, c, envPre, args, fn.Signature, pos)
 	// results
@@ -610,8 +604,34 @@ func (u *Unit) callSiteClauses(st *State, fr *Frame, calleeName string, args []V
 	}
 }
 
-// closureCreated is a hook: closure-level contracts ("on creation, facts about the closure value").
+// closureCreated: a closure that will run later with its own termination measure must be
+// created below the measure of the creating activation.
 func (u *Unit) closureCreated(st *State, fr *Frame, cv Val, pos token.Pos) {
+	if len(st.frames) != 1 || cv.Fn == nil {
+		return
+	}
+	c := u.eng.contractFor(cv.Fn.Fn)
+	if c == nil {
+		return
+	}
+	env := u.contractEnvFn(cv.Fn.Fn, nil, cv.Fn.Bind, nil, st)
+	delete(env.vars, "self")
+	// preconditions that speak only about captured variables must hold when the closure is created
+	for i, r := range c.Requires {
+		if !strings.HasPrefix(r.Label, "captured") {
+			continue
+		}
+		t, err := u.evalBool(st, env, r.Expr)
+		if err != nil {
+			u.fail(fmt.Sprintf("%s: captured-variable precondition %q: %v", r.Where, r.Src, err))
+			continue
+		}
+		u.oblige(st, "pre@create:"+relName(cv.Fn.Fn), fmt.Sprintf("%d", i+1), t, pos, "closure precondition on captured variables: "+r.Src, r.Props, r.Where)
+	}
+	if c.Decreases == nil || u.contract.Decreases == nil {
+		return
+	}
+	u.decreaseObligation(st, "dec@create:"+relName(cv.Fn.Fn), c.Decreases, env, st, pos)
 }
 
 // callFuncValue: call through a function value of unknown identity.
@@ -874,4 +894,42 @@ func (u *Unit) ifacePtr(x Val) (Val, error) {
 		}
 	}
 	return Val{}, fmt.Errorf("deref(): dynamic type of the interface value is not known on this path")
+}
+
+func (u *Unit) measure(st *State, env *SpecEnv, c *Clause) ([]Term, error) {
+	var out []Term
+	for _, e := range append([]*Spec{c.Expr}, c.More...) {
+		t, err := u.evalInt(st, env, e)
+		if err != nil {
+			return nil, err
+		}
+		out = append(out, t)
+	}
+	return out, nil
+}
+
+// decreaseObligation: the measure of the callee activation (or created closure) is
+// lexicographically below the measure of the current activation, whose components are >= 0.
+func (u *Unit) decreaseObligation(st *State, name string, calleeDec *Clause, calleeEnv *SpecEnv, calleeState *State, pos token.Pos) {
+	cur, err1 := u.measure(u.topEntry, u.contractEnvFn(u.fn, u.topParams, st.frames[0].bind, nil, u.topEntry), u.contract.Decreases)
+	nxt, err2 := u.measure(calleeState, calleeEnv, calleeDec)
+	if err1 != nil || err2 != nil {
+		u.fail(fmt.Sprintf("%s: decreases: %v %v", calleeDec.Where, err1, err2))
+		return
+	}
+	for len(nxt) < len(cur) {
+		nxt = append(nxt, "0")
+	}
+	for len(cur) < len(nxt) {
+		cur = append(cur, "0")
+	}
+	less := "false"
+	for i := len(cur) - 1; i >= 0; i-- {
+		less = sOr(fmt.Sprintf("(< %s %s)", nxt[i], cur[i]), sAnd(sEq(nxt[i], cur[i]), less))
+	}
+	var nonneg []Term
+	for _, t := range cur {
+		nonneg = append(nonneg, fmt.Sprintf("(<= 0 %s)", t))
+	}
+	u.oblige(st, name, "", sAnd(append(nonneg, less)...), pos, "termination measure decreases (lexicographic): "+calleeDec.Src, calleeDec.Props, calleeDec.Where)
 }
